@@ -491,6 +491,7 @@ def one_history(ctx, r, nops, lines, expect, speclines, meta, errcls):
                            r.choice([None, 1, 2, 3, -1, -1, -2, 0]))
                 lines.append('slice ' + ' '.join('-' if a is None else str(a) for a in (sl.start, sl.stop, sl.step)))
                 hist.append(f'v = v[{sl!r}]')
+                ctx.tick('branch slice: zero step' if sl.step == 0 else 'branch slice: negative step' if (sl.step or 1) < 0 else 'branch slice: positive step')
                 try:
                     ref.l = ref.l[sl]; sok = True
                 except ValueError:
@@ -498,6 +499,7 @@ def one_history(ctx, r, nops, lines, expect, speclines, meta, errcls):
                 v = v[sl]
             elif k == 'appendnone':
                 lines.append('append - 0'); hist.append('v._append()')
+                ctx.tick('branch autoLabel: least free integer' if len(ref.l) in ref.l else 'branch autoLabel: the index')
                 sok = ref.append(None, False); v._append()
             elif k == 'pop':
                 lines.append('pop'); hist.append('v._pop()'); sok = ref.pop(); v._pop()
@@ -523,6 +525,18 @@ def one_history(ctx, r, nops, lines, expect, speclines, meta, errcls):
                     else:
                         m = {x: r.choice(ALPHA + EXTRA_NEW) for x in ks}
                 lines.append('relabel ' + (','.join(f'{lab(a)}={lab(b)}' for a, b in m.items()) or '-'))
+                # branches the proofs split on (relabel_spec / twoPhase_spec / relabelOne): published as counts
+                _news = list(m.values())
+                if len(set(_news)) < len(_news):
+                    ctx.tick('branch relabel: rejected, two keys share a target')
+                elif any(n in ref.l and n not in m for n in _news):
+                    ctx.tick('branch relabel: rejected, target is an existing label that is not a key')
+                else:
+                    ctx.tick('branch relabel: two-phase plan' if any(k_ in _news for k_ in m) else 'branch relabel: one-phase plan')
+                    if any(a in ref.l and b == ref.l.index(a) and a != b for a, b in m.items()):
+                        ctx.tick('branch relabelOne: new label is the own index (entries erased)')
+                    if any(a not in ref.l for a in m):
+                        ctx.tick('branch relabel: key that is not a variable')
                 hist.append(f'v._relabel({m!r})'); sok = ref.relabel(m); v._relabel(m)
             elif k == 'relabelints':
                 lines.append('relabelints'); hist.append('v._relabel_as_integers()')
